@@ -118,6 +118,12 @@ func cfGoType(t cfType) reflect.Type {
 		return reflect.TypeOf(int32(0))
 	case "u8":
 		return reflect.TypeOf(uint8(0))
+	case "u32":
+		return reflect.TypeOf(uint32(0))
+	case "i64":
+		return reflect.TypeOf(int64(0))
+	case "u64":
+		return reflect.TypeOf(uint64(0))
 	case "float":
 		return reflect.TypeOf(float64(0))
 	case "string":
@@ -151,6 +157,9 @@ func cfGoDoc(d cfDoc) any {
 	case "num":
 		if i, err := strconv.ParseInt(d.V, 10, 64); err == nil {
 			return i
+		}
+		if u, err := strconv.ParseUint(d.V, 10, 64); err == nil {
+			return u // an integer in (maxint64, maxuint64]
 		}
 		f, err := strconv.ParseFloat(d.V, 64)
 		if err != nil {
@@ -257,6 +266,33 @@ type cfRendered struct {
 	ext  string
 }
 
+// cfTomlCan: TOML integers are 64-bit signed; a document holding an integer above
+// maxint64 has no TOML rendering (it is then loaded as JSON and YAML only; the spec
+// checks that exactly the expressible formats were loaded).
+func cfTomlCan(d cfDoc) bool {
+	switch d.K {
+	case "num":
+		if _, err := strconv.ParseInt(d.V, 10, 64); err != nil {
+			if _, err := strconv.ParseUint(d.V, 10, 64); err == nil {
+				return false
+			}
+		}
+	case "list":
+		for _, x := range d.L {
+			if !cfTomlCan(x) {
+				return false
+			}
+		}
+	case "map":
+		for _, e := range d.M {
+			if !cfTomlCan(e.V) {
+				return false
+			}
+		}
+	}
+	return true
+}
+
 func cfRender(t *testing.T, d cfDoc) []cfRendered {
 	g := cfGoDoc(d)
 	j, err := json.Marshal(g)
@@ -267,15 +303,18 @@ func cfRender(t *testing.T, d cfDoc) []cfRendered {
 	if err != nil {
 		t.Fatalf("yaml render: %v", err)
 	}
-	tm, err := toml.Marshal(g)
-	if err != nil {
-		t.Fatalf("toml render of %s: %v", j, err)
-	}
-	return []cfRendered{
+	rs := []cfRendered{
 		{"json", j, LoadFromJsonBytes, ".json"},
 		{"yaml", y, LoadFromYamlBytes, ".yaml"},
-		{"toml", tm, LoadFromTomlBytes, ".toml"},
 	}
+	if cfTomlCan(d) {
+		tm, err := toml.Marshal(g)
+		if err != nil {
+			t.Fatalf("toml render of %s: %v", j, err)
+		}
+		rs = append(rs, cfRendered{"toml", tm, LoadFromTomlBytes, ".toml"})
+	}
+	return rs
 }
 
 // cfIntern stores distinct answers once (error texts are not part of an answer) and
@@ -339,11 +378,15 @@ func cfRunCase(t *testing.T, em *verifEmitter, dir string, c cfCase) {
 			em.Emit(verifEv{"e": "loads", "d": dt, "useenv": true, "outs": withEnv.outs, "r": re})
 		}
 		// the same three renderings through the mapping package (no key normalisation)
-		j, y, tm := rs[0].data, rs[1].data, rs[2].data
+		j, y := rs[0].data, rs[1].data
 		ev := verifEv{"e": "mapfmt", "d": dt,
 			"map":  cfCall(rt, func(v any) error { return mapping.UnmarshalJsonBytes(j, v) }),
 			"mapy": cfCall(rt, func(v any) error { return mapping.UnmarshalYamlBytes(y, v) }),
-			"mapt": cfCall(rt, func(v any) error { return mapping.UnmarshalTomlBytes(tm, v) })}
+			"mapt": verifEv{"v": "na"}}
+		if len(rs) > 2 {
+			tm := rs[2].data
+			ev["mapt"] = cfCall(rt, func(v any) error { return mapping.UnmarshalTomlBytes(tm, v) })
+		}
 		if di.P {
 			ev["e"] = "plain"
 			ev["std"] = cfCall(rt, func(v any) error { return json.Unmarshal(j, v) })
@@ -390,15 +433,20 @@ type cfGen struct {
 	avoidPtr  bool // no *map, *[]T, map[string]*scalar (known finding open)
 	avoidDup  bool // no key spelled twice (known finding open)
 	avoidNest bool // no slice of structs under a map under another container (known finding open)
+	avoidDeep bool // no field-key spellings as keys of a map below another container that reaches a struct (finding open)
 }
 
 var (
 	cfFieldNames = []string{"Ab", "Cd", "Ef"}
 	cfIntVals    = []string{"0", "7", "-3", "300", "3000000000", "9007199254740993"}
+	cfI64Vals    = []string{"-9223372036854775808", "9223372036854775807", "-3", "0"}
+	cfU32Vals    = []string{"0", "7", "300", "3000000000"}
+	cfU64Vals    = []string{"7", "9007199254740993", "9223372036854775807", "9223372036854775808", "18446744073709551615"}
 	cfFloatVals  = []string{"0", "7", "-3", "300", "3000000000", "1.5", "-0.25", "0.1"}
 	cfStrs       = []string{"abc", "12", "${" + cfEnvName + "}"}
 	cfMapKeys    = []string{"ka", "KA", "Kb"}
-	cfLeaves     = []string{"int", "float", "string", "bool", "i32", "u8"}
+	cfFieldKeys  = []string{"aB", "AB", "cD", "Ef"} // user-chosen map keys that spell field keys
+	cfLeaves     = []string{"int", "float", "string", "bool", "i32", "u8", "i64", "u32", "u64"}
 )
 
 func cfIsLeaf(k string) bool {
@@ -505,7 +553,10 @@ func cfKey(f cfField) string {
 
 // fit draws a document that supplies every field of t with a value of its kind, keys
 // spelled exactly like the tags.
-func (g cfGen) fit(t cfType) cfDoc {
+func (g cfGen) fit(t cfType) cfDoc { return g.fitAt(t, 1) }
+
+// fitAt: cpos = position in the chain of containers of one struct field (1 = the field's own type).
+func (g cfGen) fitAt(t cfType, cpos int) cfDoc {
 	switch t.K {
 	case "int":
 		return cfDoc{K: "num", V: cfIntVals[g.r.Intn(len(cfIntVals))]}
@@ -513,6 +564,12 @@ func (g cfGen) fit(t cfType) cfDoc {
 		return cfDoc{K: "num", V: cfIntVals[g.r.Intn(4)]}
 	case "u8":
 		return cfDoc{K: "num", V: cfIntVals[g.r.Intn(2)]}
+	case "i64":
+		return cfDoc{K: "num", V: cfI64Vals[g.r.Intn(len(cfI64Vals))]}
+	case "u32":
+		return cfDoc{K: "num", V: cfU32Vals[g.r.Intn(len(cfU32Vals))]}
+	case "u64":
+		return cfDoc{K: "num", V: cfU64Vals[g.r.Intn(len(cfU64Vals))]}
 	case "float":
 		return cfDoc{K: "num", V: cfFloatVals[g.r.Intn(len(cfFloatVals))]}
 	case "string":
@@ -520,18 +577,22 @@ func (g cfGen) fit(t cfType) cfDoc {
 	case "bool":
 		return cfDoc{K: "bool", B: g.r.Intn(2) == 0}
 	case "ptr":
-		return g.fit(*t.T)
+		return g.fitAt(*t.T, cpos)
 	case "slice":
 		d := cfDoc{K: "list"}
 		for i, n := 0, g.r.Intn(3); i < n; i++ {
-			d.L = append(d.L, g.fit(*t.T))
+			d.L = append(d.L, g.fitAt(*t.T, cpos+1))
 		}
 		return d
 	case "map":
 		d := cfDoc{K: "map"}
-		p := g.r.Perm(len(cfMapKeys))
+		pool := cfMapKeys
+		if !(g.avoidDeep && cpos >= 2 && cfReachesStruct(*t.T)) && g.r.Intn(2) == 0 {
+			pool = append(append([]string(nil), cfMapKeys...), cfFieldKeys...)
+		}
+		p := g.r.Perm(len(pool))
 		for i, n := 0, g.r.Intn(3); i < n; i++ {
-			d.M = append(d.M, cfEnt{cfMapKeys[p[i]], g.fit(*t.T)})
+			d.M = append(d.M, cfEnt{pool[p[i]], g.fitAt(*t.T, cpos+1)})
 		}
 		return d
 	case "struct":
@@ -664,7 +725,8 @@ func TestVerifConfRandom(t *testing.T) {
 	avoid := os.Getenv("VERIF_CONF_AVOID")
 	g := cfGen{r: verifRand(17), avoidPtr: strings.Contains(avoid, "KF_PtrContainer"),
 		avoidDup:  strings.Contains(avoid, "KF_CaseDupKeys"),
-		avoidNest: strings.Contains(avoid, "KF_NestedContainerCase")}
+		avoidNest: strings.Contains(avoid, "KF_NestedContainerCase"),
+		avoidDeep: strings.Contains(avoid, "KF_DeepMapFieldKey")}
 	n := verifEnvInt("VERIF_CONF_CASES", 300)
 	depth := verifEnvInt("VERIF_CONF_DEPTH", 3)
 	for i := 0; i < n; i++ {
